@@ -74,6 +74,12 @@ def gen_channel(rng, kind, quirks=True):
                 sub[("zz" if rng.random() < 0.5 else "aa") + nm] = None
         if quirks and rng.random() < 0.1:
             sub[rng.choice(["rf@%d.00.h5" % T, "rf@.000.h5", "notes.txt", "rf@%d.000.h4" % T, "drf_properties.h5x"])] = None
+        if quirks and rng.random() < 0.18:
+            # a subdirectory holding ONLY entries the listing must ignore: a leftover tmp. file of an
+            # interrupted writer, a stray file, or only files of the other kind
+            other = ("metadata@%d.h5" % (T + 7)) if kind in ("rf",) else ("rf@%d.000.h5" % (T + 7))
+            sub = {rng.choice(["tmp.metadata@%d.h5" % (T + 5), "tmp.rf@%d.000.h5" % (T + 5), "notes.txt", "rf@%d.00.h5" % T,
+                               other, other]): None}
         node = sub
         if quirks and rng.random() < 0.06:
             node = GONE
@@ -143,6 +149,23 @@ def boundary_trees():
                                                     "tmp.rf@%d.000.h5" % (T[0] + 1): None},
            subdir_name(T[1]): {"rf@%d.250.h5" % T[1]: None}}
     out.append(("legacy-both-kinds", {"ch": leg}))
+    # look-back across a subdirectory that holds only entries the listing must ignore
+    for nm, filler in (("only-tmp", {"tmp.metadata@%d.h5" % (T[1] + 5): None}), ("only-stray", {"notes.txt": None}),
+                       ("only-near-miss", {"metadata@%d.h4" % (T[1] + 5): None, "metadata@.h5": None}),
+                       ("only-rf", {"rf@%d.000.h5" % (T[1] + 5): None})):
+        e = json.loads(json.dumps(md3))
+        e[subdir_name(T[1])] = dict(filler)
+        out.append(("md-middle-" + nm, {"ch": e}))
+        lg = {"metadata.h5": None}
+        lg[subdir_name(T[0])] = {"metadata@%d.h5" % (T[0] + 10): None}
+        lg[subdir_name(T[1])] = dict(filler)
+        lg[subdir_name(T[2])] = {"metadata@%d.h5" % (T[2] + 50): None, "rf@%d.000.h5" % (T[2] + 60): None}
+        out.append(("legacy-middle-" + nm, {"ch": lg}))
+    e = json.loads(json.dumps(md3))
+    e[subdir_name(T[1])] = {"tmp.metadata@%d.h5" % (T[1] + 5): None}
+    e[subdir_name(T[2])] = {}
+    e[subdir_name(T[2] + HOUR)] = {"metadata@%d.h5" % (T[2] + HOUR + 50): None}
+    out.append(("md-two-ignored-subdirs", {"ch": e}))
     out.append(("empty-tree", {}))
     out.append(("channel-no-subdirs", {"ch": {"drf_properties.h5": None, "dmd_properties.h5": None}}))
     return out
@@ -334,7 +357,7 @@ def windows_for(rng, times, quick):
         pairs.add((None, c))
         pairs.add((c, c))
     allp = [(a, b) for a in cands for b in cands]
-    k = 40 if quick else 400
+    k = 40 if quick else 150
     for _ in range(k):
         pairs.add(rng.choice(allp))
     pairs = sorted(pairs, key=lambda p: (p[0] is None, p[0] or 0, p[1] is None, p[1] or 0))
@@ -379,7 +402,7 @@ def run(res):
                 "combinations x recursive x reverse x windows at and 1 ms around every file/subdirectory time; "
                 "non-trivial = distinct (tree, options) whose listing is non-empty or raises; each compared: "
                 "extracted Model/Listing.ilsdrf vs real lsdrf vs set-theoretic Spec oracle")
-    ntrees = 25 if quick else 400
+    ntrees = 25 if quick else 150
     trees = boundary_trees() + [("random-%d" % i, gen_tree(rng)) for i in range(ntrees)]
     flagsets = [fl for fl in L.ALL_FLAGS]
     eff15 = [fl for fl in flagsets if None not in fl[2:]]
@@ -398,7 +421,7 @@ def run(res):
             wins = windows_for(rng, times, quick)
             cases, metas = [], []
             for wi, (st, en) in enumerate(wins):
-                fsel = eff15 if (wi % 7 == 0 or not quick) else rng.sample(eff15, 3)
+                fsel = eff15 if wi % (7 if quick else 3) == 0 else rng.sample(eff15, 3 if quick else 5)
                 if wi % 5 == 0:
                     fsel = fsel + [rng.choice(flagsets)]
                 for fl in fsel:
